@@ -116,7 +116,13 @@ def run_session(bdir, root, s, rnd_seed, timeout=90, extra_env=None):
         if s["kind"] == "infinite":
             time.sleep(s["stop_after"])
             eng.send("stop")
-        lines, ok = eng.read_until(lambda l: l.startswith("bestmove"), timeout)
+        # Searches throttled by strength options (MaxNPS 2000, UCI_Elo -625, ...) or slowed down by a loaded machine may need minutes for a
+        # depth limit: after a grace period the driver sends 'stop' (as a GUI user would) - the answer must be well-formed all the same.
+        lines, ok = eng.read_until(lambda l: l.startswith("bestmove"), 12)
+        if not ok:
+            eng.send("stop")
+            more, ok = eng.read_until(lambda l: l.startswith("bestmove"), timeout)
+            lines += more
         if not ok:
             status = "no-bestmove"
         for l in lines:
